@@ -1206,3 +1206,144 @@ Proof.
       change (it_step R f Fwd t (CObj 1)) with (@OVal (option cur) (Some (CObj 0))). apply IH. }
   apply H.
 Qed.
+
+(* ------------------------------------------------------------------ never outside, whatever the cut-off *)
+Lemma walk_loop_safe f d u cvs (H : wb f u cvs) :
+  forall cut i acc,
+    let c := match d with Fwd => cur_at cvs i | Bwd => cur_before cvs i end in
+    (match d with Fwd => True | Bwd => (i <= length cvs)%nat end) ->
+    snd (walk_loop R f d u cut c acc) = WDone \/ snd (walk_loop R f d u cut c acc) = WRunaway.
+Proof.
+  induction cut; intros i acc c Hi; subst c.
+  - destruct d; [destruct (cur_at cvs i) | destruct (cur_before cvs i)]; simpl; auto.
+  - destruct d.
+    + destruct (nth_error cvs i) as [[c v]|] eqn:E.
+      * unfold cur_at. rewrite E. cbn [option_map fst walk_loop].
+        rewrite (wb_val _ _ _ H _ _ _ E), (wb_next _ _ _ H _ _ _ E). apply (IHcut (S i)). exact I.
+      * unfold cur_at. rewrite E. simpl. auto.
+    + destruct i as [|i]; [simpl; auto|]. cbn [cur_before].
+      destruct (nth_error cvs i) as [[c v]|] eqn:E.
+      * unfold cur_at. rewrite E. cbn [option_map fst walk_loop].
+        rewrite (wb_val _ _ _ H _ _ _ E), (wb_prev _ _ _ H _ _ _ E). apply (IHcut i). lia.
+      * apply nth_error_None in E. lia.
+Qed.
+
+Theorem walk_safe f u cvs d cut : wb f u cvs ->
+  snd (walk R f d cut u) = WDone \/ snd (walk R f d cut u) = WRunaway.
+Proof.
+  intros H. unfold walk. destruct d.
+  - rewrite (wb_init _ _ _ H). apply (walk_loop_safe f Fwd u cvs H cut 0%nat []). exact I.
+  - rewrite (wb_last _ _ _ H). apply (walk_loop_safe f Bwd u cvs H cut (length cvs) []). simpl. lia.
+Qed.
+
+(* ------------------------------------------------------------------ summaries used by Properties_C11.v *)
+Definition iterates (f : nat) (u : iterable) (vs : list val) : Prop :=
+  forall cut, (length vs < cut)%nat ->
+    walk R f Fwd cut u = (vs, WDone) /\ walk R f Bwd cut u = (rev vs, WDone).
+
+Lemma wb_iterates f u cvs : wb f u cvs -> iterates f u (map snd cvs).
+Proof.
+  intros H cut Hc. rewrite map_length in Hc. split; [now apply walk_fwd | now apply walk_bwd].
+Qed.
+
+Lemma array_summary f xs : iterates f (IArray xs) xs /\ lg (IArray xs) xs.
+Proof.
+  split; [|apply lg_array]. pose proof (wb_iterates _ _ _ (wb_array f xs)) as H.
+  now rewrite chain_from_snd in H.
+Qed.
+Lemma list_summary f xs : iterates f (IList xs) xs /\ lg (IList xs) xs.
+Proof.
+  split; [|apply lg_list]. pose proof (wb_iterates _ _ _ (wb_list f xs)) as H.
+  now rewrite chain_from_snd in H.
+Qed.
+Lemma tree_summary f xs : iterates f (ITree xs) xs /\ it_len R (ITree xs) = OVal (zlen xs).
+Proof.
+  split; [|reflexivity]. pose proof (wb_iterates _ _ _ (wb_tree f xs)) as H.
+  now rewrite chain_from_snd in H.
+Qed.
+
+Lemma range_summary f r : in_box r ->
+  iterates f (IRange r) (map VInt (range_elems r)) /\ lg (IRange r) (map VInt (range_elems r)) /\
+  length (range_elems r) = Z.to_nat (range_count r) /\
+  (forall i, (i < Z.to_nat (range_count r))%nat -> nth_error (range_elems r) i = Some (range_val r (Z.of_nat i))) /\
+  (forall i, 0 <= i < range_count r -> r_start r <= range_val r i < r_stop r) /\
+  (forall i, range_count r <= i ->
+     if 0 <? r_step r then r_stop r <= range_val r i else range_val r i < r_start r).
+Proof.
+  intros Hb. split; [|split; [|split; [|split; [|split]]]].
+  - pose proof (wb_iterates _ _ _ (wb_range f r Hb)) as H. now rewrite range_chain_snd in H.
+  - now apply lg_range.
+  - apply range_elems_length.
+  - apply range_elems_nth.
+  - intros i Hi. now apply range_val_bounds.
+  - intros i Hi. pose proof (range_count_nonneg r).
+    pose proof (range_in_iff r i Hb ltac:(lia)) as Hiff.
+    destruct (Z.ltb_spec 0 (r_step r)); lia.
+Qed.
+
+Lemma map_summary f u cvs g : wb f u cvs ->
+  wb f (IMap g u) (map_chain g cvs) /\ map snd (map_chain g cvs) = map g (map snd cvs).
+Proof. intros H. split; [now apply wb_map | apply map_chain_snd]. Qed.
+
+Lemma filter_summary f u cvs p : wb f u cvs -> (length cvs <= f)%nat ->
+  wb f (IFilter p u) (filter (acc_of p) cvs) /\
+  map snd (filter (acc_of p) cvs) = filter p (map snd cvs).
+Proof. intros H Hf. split; [now apply wb_filter | apply filter_chain_snd]. Qed.
+
+Lemma slice_summary f u cvs r : wb f u cvs -> it_len R u = OVal (zlen cvs) -> slice_ok r (zlen cvs) ->
+  wb f (ISlice u r) (slice_chain r cvs) /\
+  map snd (slice_chain r cvs) = slice_sel r (map snd cvs) /\
+  it_len R (ISlice u r) = OVal (zlen (slice_chain r cvs)).
+Proof.
+  intros H Hl Hok. split; [now apply wb_slice|]. split; [now apply slice_chain_snd|].
+  cbn [it_len]. destruct Hok as (Hb & _). rewrite range_len_ok by auto.
+  unfold zlen. rewrite slice_chain_length. pose proof (range_count_nonneg r). f_equal. lia.
+Qed.
+
+Lemma zip_row_vals css j row : zrow css j = Some row ->
+  map snd row = map (fun l => nth j (map snd l) dv) css.
+Proof.
+  unfold zrow. revert row. induction css as [|l r IH]; intros row H; simpl in H.
+  - now inversion H.
+  - destruct (nth_error l j) as [cv|] eqn:E; [|discriminate].
+    destruct (mapM (fun l0 => nth_error l0 j) r) as [row'|] eqn:Er; [|discriminate].
+    inversion H; subst. cbn [map snd]. f_equal; [|now apply IH].
+    symmetry. apply nth_error_nth. now rewrite nth_error_map, E.
+Qed.
+
+Lemma zip_summary f us css : us <> [] ->
+  Forall2 (wb f) us css -> Forall2 (fun u l => item_len_of f u = OVal (zlen l)) us css ->
+  wb f (IZip us) (zip_chain css) /\
+  length (zip_chain css) = minlen css /\
+  (forall j, (j < minlen css)%nat ->
+     nth_error (map snd (zip_chain css)) j = Some (VTup (map (fun l => nth j (map snd l) dv) css))).
+Proof.
+  intros Hne Hwb Hlen. split; [now apply wb_zip|]. split; [apply zip_chain_length|].
+  assert (Hcne : css <> []) by (destruct Hwb; congruence).
+  intros j Hj. rewrite nth_error_map, zip_chain_nth by auto.
+  destruct (zrow_some css j Hcne Hj) as [row Hr]. rewrite Hr. cbn [option_map zip_item snd].
+  now rewrite (zip_row_vals _ _ _ Hr).
+Qed.
+
+(* depth 3: filter (map (slice u)) over ANY well-behaved u, e.g. another view *)
+Lemma nested_views f u cvs r g p : wb f u cvs -> it_len R u = OVal (zlen cvs) -> slice_ok r (zlen cvs) ->
+  (length cvs <= f)%nat ->
+  iterates f (IFilter p (IMap g (ISlice u r))) (filter p (map g (slice_sel r (map snd cvs)))).
+Proof.
+  intros H Hl Hok Hf.
+  pose proof (wb_slice f u cvs r H Hl Hok) as H1.
+  pose proof (wb_map f _ _ g H1) as H2.
+  assert (length (map_chain g (slice_chain r cvs)) <= f)%nat as Hf2.
+  { unfold map_chain. rewrite map_length, slice_chain_length.
+    destruct Hok as (Hb & Hs & Ht). pose proof (range_count_nonneg r).
+    destruct (Z.ltb_spec 0 (range_count r)); [|lia].
+    assert (0 <= range_count r - 1 < range_count r) as Hi by lia.
+    pose proof (range_val_bounds r _ Hb Hi) as Hv.
+    (* count <= stop - start <= n *)
+    pose proof (range_count_bound r Hb) as [_ Hm]. specialize (Hm ltac:(lia)).
+    destruct Hb as (_ & _ & _ & Hn). unfold zlen in *.
+    assert (range_count r - 1 <= r_stop r - 1 - r_start r) by nia. lia. }
+  pose proof (wb_filter f _ _ p H2 Hf2) as H3.
+  pose proof (wb_iterates _ _ _ H3) as H4.
+  now rewrite filter_chain_snd, map_chain_snd, slice_chain_snd in H4.
+Qed.
